@@ -33,6 +33,9 @@ pub enum Step {
     Call(Blob),
     /// server-streaming call
     StreamCall,
+    /// unary call whose deadline has already passed (`set_timeout(Duration::ZERO)`): its own result is
+    /// not judged, but it must not disturb the calls after it
+    CallExpired,
     /// the peer of the current connection vanishes
     Kill,
     /// the server closes the current connection cleanly (server side of the pipe dropped)
@@ -53,10 +56,22 @@ pub struct Case {
     /// a live connection must not depend on the connector
     #[serde(default)]
     pub gated_connector: bool,
+    /// Some -> the balanced-channel family instead of the history above
+    #[serde(default)]
+    pub balanced: Option<Balanced>,
+}
+
+/// `Channel::balance_list` over endpoints that are all down (loopback ports nobody listens on): balanced
+/// channels only connect over real TCP, so this family runs on a real-time runtime and is judged by counting
+/// (answered calls, connection attempts seen through Reconnect's trace events), never by elapsed time.
+#[derive(Clone, Debug, Serialize, Deserialize, PartialEq, Eq)]
+pub struct Balanced {
+    pub endpoints: u8,
+    pub calls: u8,
 }
 
 pub fn strategy() -> BoxedStrategy<Case> {
-    (any::<bool>(), proptest::option::weighted(0.3, 5u16..200))
+    let plain = (any::<bool>(), proptest::option::weighted(0.3, 5u16..200))
         .prop_flat_map(|(lazy, cto)| {
             let att = if cto.is_some() {
                 prop_oneof![5 => Just(Attempt::Succeed), 2 => Just(Attempt::Refused), 1 => Just(Attempt::Reset), 1 => Just(Attempt::TimedOut), 1 => Just(Attempt::Other), 2 => Just(Attempt::Hang)].boxed()
@@ -66,13 +81,107 @@ pub fn strategy() -> BoxedStrategy<Case> {
             let step = prop_oneof![
                 5 => crate::infra::blob::small_bytes(12).prop_map(Step::Call),
                 1 => Just(Step::StreamCall),
+                1 => Just(Step::CallExpired),
                 3 => Just(Step::Kill),
                 1 => (1u16..500).prop_map(Step::Idle),
             ];
             (proptest::collection::vec(att, 1..8), proptest::collection::vec(step, 1..=12), pipe_schedule(), pipe_schedule(), any::<u64>(), proptest::bool::weighted(0.3))
-                .prop_map(move |(attempts, steps, c2s, s2c, rt_seed, gated_connector)| Case { lazy, attempts, steps, connect_timeout_ms: cto, c2s, s2c, rt_seed, gated_connector })
+                .prop_map(move |(attempts, steps, c2s, s2c, rt_seed, gated_connector)| Case { lazy, attempts, steps, connect_timeout_ms: cto, c2s, s2c, rt_seed, gated_connector, balanced: None })
         })
-        .boxed()
+        .boxed();
+    let balanced = (1u8..=3, 1u8..=4).prop_map(|(endpoints, calls)| Case {
+        lazy: true,
+        attempts: vec![Attempt::Refused],
+        steps: vec![],
+        connect_timeout_ms: None,
+        c2s: vec![],
+        s2c: vec![],
+        rt_seed: 0,
+        gated_connector: false,
+        balanced: Some(Balanced { endpoints, calls }),
+    });
+    prop_oneof![49 => plain, 1 => balanced].boxed()
+}
+
+/// more connection attempts than this while ONE call is outstanding = a reconnect loop that no call drives
+const STORM: usize = 200;
+/// one balanced case at a time per process: the "dead" ports are found by binding and releasing a listener
+static BALANCED_LOCK: Mutex<()> = Mutex::new(());
+
+fn run_balanced(b: &Balanced, o: &mut Outcome) -> Result<(), Failure> {
+    enum R {
+        Done(Result<(), (Code, String)>, usize),
+        Storm(usize),
+        Guard,
+    }
+    let _g = BALANCED_LOCK.lock().unwrap_or_else(|e| e.into_inner());
+    let runtime = tokio::runtime::Builder::new_current_thread().enable_all().build().expect("runtime");
+    let (attempts, thread) = crate::infra::tracecount::reconnect_attempts();
+    *thread.lock().unwrap_or_else(|e| e.into_inner()) = Some(std::thread::current().id());
+    let acc = attempts.clone();
+    let b2 = b.clone();
+    let res: Result<Vec<R>, String> = {
+        runtime.block_on(async move {
+            let mut eps = vec![];
+            for _ in 0..b2.endpoints.max(1) {
+                let l = std::net::TcpListener::bind("127.0.0.1:0").map_err(|e| format!("bind: {e}"))?;
+                let port = l.local_addr().map_err(|e| format!("local_addr: {e}"))?.port();
+                drop(l);
+                eps.push(tonic::transport::Endpoint::from_shared(format!("http://127.0.0.1:{port}")).map_err(|e| format!("{e:?}"))?);
+            }
+            let ch = tonic::transport::Channel::balance_list(eps.into_iter());
+            let mut client = vt::raw_client::RawClient::new(ch);
+            let mut out = vec![];
+            for _ in 0..b2.calls.max(1) {
+                let before = acc.load(Ordering::SeqCst);
+                let acc2 = acc.clone();
+                let storm = async move {
+                    loop {
+                        tokio::task::yield_now().await;
+                        let n = acc2.load(Ordering::SeqCst) - before;
+                        if n > STORM {
+                            return n;
+                        }
+                    }
+                };
+                tokio::select! {
+                    biased;
+                    r = client.unary(b"ping".to_vec()) => out.push(R::Done(r.map(|_| ()).map_err(|s| (s.code(), s.message().to_string())), acc.load(Ordering::SeqCst) - before)),
+                    n = storm => { out.push(R::Storm(n)); break }
+                    _ = tokio::time::sleep(Duration::from_secs(120)) => { out.push(R::Guard); break }
+                }
+            }
+            Ok(out)
+        })
+    };
+    drop(runtime);
+    let out = match res {
+        Ok(o) => o,
+        Err(e) => {
+            // no loopback sockets in this environment: nothing can be said
+            println!("INCONCLUSIVE property=C14 balanced-channel family cannot use loopback sockets: {e}");
+            std::process::exit(2);
+        }
+    };
+    o.label("balanced_channel_all_endpoints_down");
+    o.label_if(b.endpoints > 1, "balanced_several_endpoints");
+    o.nontrivial = b.calls > 1;
+    for (i, r) in out.iter().enumerate() {
+        match r {
+            R::Done(Ok(()), _) => bail!("C14/success-without-connection", "balanced channel: call {i} succeeded although nothing listens on its endpoints"),
+            R::Done(Err((code, _)), n) => {
+                // the code is judged by the scripted-connector family; a foreign process may have taken the port
+                o.label_if(*code == Code::Unavailable, "balanced_unavailable");
+                o.label_if(*n > 0, "balanced_attempts_counted");
+            }
+            R::Storm(n) => bail!("C14/call-never-resolves/reconnect-loop", "balanced channel, all {} endpoints down: call {i} was not answered while {n} connection attempts were started", b.endpoints),
+            R::Guard => {
+                println!("INCONCLUSIVE property=C14 balanced-channel call {i} neither resolved nor caused connection attempts within 120 s of real time");
+                std::process::exit(2);
+            }
+        }
+    }
+    Ok(())
 }
 
 /// Connector wrapper whose readiness is withheld while the connection it produced is alive.
@@ -106,9 +215,13 @@ enum Obs {
     EagerConnect(Result<(), String>, u64),
     Call(Result<Vec<u8>, (Code, String)>, u64),
     Stream(Result<usize, (Code, String)>, u64),
+    Expired(Result<(), (Code, String)>),
 }
 
 pub fn run(c: &Case, o: &mut Outcome) -> Result<(), Failure> {
+    if let Some(b) = &c.balanced {
+        return run_balanced(b, o);
+    }
     let sh = Shared::new(vec![HandlerScript {
         msgs: vec![RespMsg { data: Blob::of(b"pong"), pend: 0, delay_ms: 0 }, RespMsg { data: Blob::of(b"pong2"), pend: 0, delay_ms: 0 }],
         ..Default::default()
@@ -196,6 +309,12 @@ pub fn run(c: &Case, o: &mut Outcome) -> Result<(), Failure> {
                     let dt = rt::virtual_ms().unwrap_or(0) - t0;
                     obs.push(Obs::Stream(r.map_err(|s| (s.code(), s.message().to_string())), dt));
                 }
+                Step::CallExpired => {
+                    let mut req = tonic::Request::new(b"late".to_vec());
+                    req.set_timeout(Duration::ZERO);
+                    let r = client.unary(req).await;
+                    obs.push(Obs::Expired(r.map(|_| ()).map_err(|s| (s.code(), s.message().to_string()))));
+                }
                 Step::Kill => {
                     if let Some(h) = net2.conns.lock().unwrap().last() {
                         h.kill();
@@ -252,6 +371,26 @@ pub fn run(c: &Case, o: &mut Outcome) -> Result<(), Failure> {
                 // the kill hits the most recent connection; if none is live it is a no-op
             }
             Step::Idle(_) => {}
+            Step::CallExpired => {
+                // like any call it needs a connection: without one it triggers (and consumes) an attempt
+                let res = match it.next() {
+                    Some(Obs::Expired(r)) => r,
+                    other => bail!("C14/harness", "expected expired-call observation, got {other:?}"),
+                };
+                o.label("call_with_expired_deadline");
+                if !live {
+                    let a = att(used);
+                    used += 1;
+                    if a == Attempt::Succeed {
+                        live = true;
+                        prev_failed = false;
+                    } else {
+                        ensure!(res.is_err(), "C14/success-without-connection", "expired call succeeded although connection attempt {} was {a:?}", used - 1);
+                        failures += 1;
+                        prev_failed = true;
+                    }
+                }
+            }
             Step::Call(_) | Step::StreamCall => {
                 let (res, dt): (Result<(), &(Code, String)>, u64) = match it.next() {
                     Some(Obs::Call(r, dt)) => {
@@ -329,14 +468,17 @@ impl Prop for C14 {
         run(c, o)
     }
     fn rule() -> &'static str {
-        "model-based proptest over fault histories: scripted connector for Endpoint::connect_with_connector[_lazy] (per attempt: succeed -> in-memory pipe to a tonic server, or fail with ConnectionRefused / ConnectionReset / TimedOut / Other, or hang under a connect_timeout) x up to 12 steps over {unary call, server-streaming call, kill the current connection, idle} each issued at a quiescent point of a paused single-threaded runtime x lazy/eager x pipe fragmentation x scheduler seed. Reference model: connection state {none, live}; a call on a live connection succeeds with the scripted response; a call without one makes exactly one connector invocation, succeeds iff that attempt succeeds, otherwise fails with UNAVAILABLE (after exactly connect_timeout for a hanging attempt) and the next call makes a fresh attempt; eager connect reports a failing first attempt immediately; total connector invocations equal the model's; nothing panics; every call resolves (virtual-time watchdog). Non-trivial: the history contains a recovery (fail->succeed or kill->call->succeed)."
+        "model-based proptest over fault histories: scripted connector for Endpoint::connect_with_connector[_lazy] (per attempt: succeed -> in-memory pipe to a tonic server, or fail with ConnectionRefused / ConnectionReset / TimedOut / Other, or hang under a connect_timeout) x up to 12 steps over {unary call, server-streaming call, kill the current connection, idle} each issued at a quiescent point of a paused single-threaded runtime x lazy/eager x pipe fragmentation x scheduler seed. Reference model: connection state {none, live}; a call on a live connection succeeds with the scripted response; a call without one makes exactly one connector invocation, succeeds iff that attempt succeeds, otherwise fails with UNAVAILABLE (after exactly connect_timeout for a hanging attempt) and the next call makes a fresh attempt; eager connect reports a failing first attempt immediately; total connector invocations equal the model's; nothing panics; every call resolves (virtual-time watchdog). Also: calls whose deadline has already expired interleaved in the history (their own result is not judged; they consume an attempt like any call and must not leave a failure behind for the next call); a connector that reports not-ready while its connection is alive; and a balanced-channel family (2% of cases): Channel::balance_list over 1-3 loopback ports nobody listens on (real TCP, real-time runtime), 1-4 calls, each must be answered with an error while at most 200 connection attempts (counted through Reconnect's own trace events) are started for it. Non-trivial: the history contains a recovery (fail->succeed or kill->call->succeed), or a balanced case with more than one call."
     }
     fn assumptions() -> Vec<String> {
-        vec!["faults are injected at quiescent points between calls (the property's quantifier); faults racing an in-flight call are not generated".into()]
+        vec![
+            "faults are injected at quiescent points between calls (the property's quantifier); faults racing an in-flight call are not generated".into(),
+            "balanced channels are outside the statement's quantifier (lazy/eager channels) and can only connect over real TCP: only 'every call is answered' and 'no reconnect loop' are judged there, by counting attempts; a 120 s real-time guard without any attempt being counted is reported as INCONCLUSIVE (exit 2), never as a violation".into(),
+        ]
     }
     fn cases(t: Tier) -> u64 {
         match t {
-            Tier::Quick => 4_000,
+            Tier::Quick => 16_000,
             Tier::Thorough => 150_000,
         }
     }
